@@ -394,3 +394,28 @@ def c13(c):
         exhaustive_subspaces=["all operation sequences of length 3 (quick) / 4 (thorough) over 2 functions and 3 owners, per backend"],
         assumptions=["owners whose sandbox incarnation was destroyed are not judged, only that unregistering/destroying them is harmless",
                      "the model backend refuses registration when its table is full (its duty under the plug-in contract)"]))
+
+
+# --------------------------------------------------------------------- C14
+@plan("C14")
+def c14(c):
+    units = guest_libs() + [dict(name="c14_lifecycle", srcs=[D + "c14_lifecycle.cpp"], build="asan", defs=EXC, libs=["-ldl"], needs=["libguest1.so", "libguest2.so"])]
+    ns = 4 if not c.thorough else 10
+    runs = sliced("c14_lifecycle", ns, label="c14_exh2", args=[0], env=guest_env(c))
+    runs += sliced("c14_lifecycle", ns, label="c14_exh3", args=[1], env=guest_env(c))
+    runs += sliced("c14_lifecycle", 2 if not c.thorough else 5, label="c14_random", args=[2], env=guest_env(c))
+    return dict(units=units, runs=runs, evidence=dict(
+        level="exploration",
+        rule="history = sequence over {create over library 1, create over library 2, create with injected failure, destroy, malloc, free, register, "
+             "unregister, invoke by name, get_app_pointer, example-based pointer store/load} x sandbox object, on 2 or 3 objects of the model backend "
+             "type (FINDER style: the live-sandbox registry is on the translation path), in lock-step with a reference state machine {not-created, "
+             "created, failed-creation}. Judged per step: abort / no abort and return value; malloc non-null inside the own region iff created; "
+             "free reaches the backend iff created; registration aborts outside the window; by-name invocation runs in the library of the current "
+             "incarnation; after every step the public is_in_same_sandbox predicate must attribute representative addresses of every (live, "
+             "destroyed, application) region exactly as the model does. Exhaustive: all sequences of length 4 (quick) / 5 (thorough) on 2 objects "
+             "and length 3 / 4 on 3 objects; random histories beyond; dylib backend: create/destroy/invoke over two shared objects exporting the "
+             "same names (each call first in a forked child). After a failed creation both outcomes of a retry are accepted. "
+             "Invocation/app-pointer/translation outside the lifetime window are not driven.",
+        exhaustive=False,
+        exhaustive_subspaces=["all operation sequences of length 4 (quick) / 5 (thorough) over 11 operations x 2 sandbox objects, and of length 3 / 4 over 3 objects"],
+        assumptions=["an expected abort ends the history"]))
